@@ -673,16 +673,16 @@ structure R (c : C) (s : S) : Prop where
   sub : Rel Psub c.suback s.subs
   unsub : Rel Punsub c.unsuback s.unsubs
   in2 : Rel Pin c.pub2in s.open2
-  ping : slotTags c = s.pings
+  ping : pingTags c = s.pings ∧ PingsWaiting c
   trie : ∃ store, TI c.topics store ∧ HeldRel store s.held
   good : GoodS s
 
 theorem R_init : R init {} :=
-  ⟨rfl, rfl, rfl, rfl, rfl, rfl, rfl, ⟨[], ti_new, fun k => by simp [keysS, keysH]⟩,
+  ⟨rfl, rfl, rfl, rfl, rfl, rfl, ⟨rfl, pingsWaiting_init⟩, ⟨[], ti_new, fun k => by simp [keysS, keysH]⟩,
     ⟨fun r hr => (by cases hr), fun r hr => (by cases hr), fun r hr => (by cases hr)⟩⟩
 
 /-- the events the refinement theorem admits, decided on the *specification's* state: exactly the
-recorded exclusions (E5 early acknowledgement; a second ping while one is outstanding; E9 a callback held
+recorded exclusions (E5 early acknowledgement; E9 a callback held
 under two filters matching the delivered topic; B3 `good`; caller-supplied non-zero identifiers) and
 the peer keeping to the protocol where the property is silent (valid topic names and QoS in inbound
 PUBLISHes, SUBACK return codes 0/1/2/0x80, no PUBREC after the PUBCOMP of the same exchange, subscribed
@@ -695,7 +695,7 @@ def okStep (s : S) : Ev → Bool
     id != 0 && decide ((topics.map (fun (t : Bytes × Nat) => t.1)).Nodup) &&
       topics.all (fun t => good t.1 && validFilter t.1)
   | .api (.unsubscribe id topics _) => id != 0 && topics.all (fun t => good t)
-  | .api (.ping _) => s.pings.isEmpty
+  | .api (.ping _) => true
   | .peer (.publish pb) =>
     good pb.topic && validName pb.topic && decide (pb.qos ≤ 2) && (pb.qos == 2 || E9free s.held pb.topic)
   | .peer (.pubrel id) =>
@@ -856,17 +856,16 @@ theorem sim_api_unsubscribe (c : C) (s : S) (hR : R c s) (hc : c.connected = tru
       obtain ⟨f, hf, rfl⟩ := List.mem_map.mp ht
       exact hall f hf
 
-theorem sim_api_ping (c : C) (s : S) (hR : R c s) (hc : c.connected = true) (tag : Nat)
-    (hok : okStep s (.api (.ping tag)) = true) :
+theorem sim_api_ping (c : C) (s : S) (hR : R c s) (hc : c.connected = true) (tag : Nat) :
     R (step c (.api (.ping tag))).1 (Mqtt.Spec.Client.step s (.api (.ping tag))).1 ∧
     EvMatch (Mqtt.Spec.Client.step s (.api (.ping tag))).2 (step c (.api (.ping tag))).2 := by
   have hs : s.connected = true := by rw [← hR.conn]; exact hc
   rw [step_api c hc, spec_step_api s hs]
-  simp only [okStep, List.isEmpty_iff] at hok
   simp only [apiWrite, apiRegister, Mqtt.Spec.Client.apiRegister, Mqtt.Spec.Client.apiWrite, List.append_nil]
-  refine ⟨⟨hR.conn, hR.pub1, hR.pub2, hR.sub, hR.unsub, hR.in2, ?_, hR.trie, ⟨hR.good.subs, hR.good.unsubs, hR.good.open2⟩⟩,
+  refine ⟨⟨hR.conn, hR.pub1, hR.pub2, hR.sub, hR.unsub, hR.in2, ⟨?_, ?_⟩, hR.trie, ⟨hR.good.subs, hR.good.unsubs, hR.good.open2⟩⟩,
     EvMatch.single _ rfl⟩
-  simp [slotTags, hok]
+  · simp [pingTags, ← hR.ping.1]
+  · exact apiRegister_pingsWaiting c (.ping tag) hR.ping.2
 
 theorem sim_api (c : C) (s : S) (hR : R c s) (hc : c.connected = true) (call : Api)
     (hok : okStep s (.api call) = true) :
@@ -876,7 +875,7 @@ theorem sim_api (c : C) (s : S) (hR : R c s) (hc : c.connected = true) (call : A
   | publish p tag => exact sim_api_publish c s hR hc p tag hok
   | subscribe id topics tag cb => exact sim_api_subscribe c s hR hc id topics tag cb hok
   | unsubscribe id topics tag => exact sim_api_unsubscribe c s hR hc id topics tag hok
-  | ping tag => exact sim_api_ping c s hR hc tag hok
+  | ping tag => exact sim_api_ping c s hR hc tag
 
 /-! ### one step: packets from the peer -/
 
@@ -998,7 +997,7 @@ theorem sim_peer_pubrec (c : C) (s : S) (hR : R c s) (id : Nat) (hok : okStep s 
 
 theorem R_of_frame (c0 c' : C) (s' : S) (hf : Frame c0 c') (conn : c0.connected = s'.connected)
     (pub1 : Rel Ptag c0.pub1ack s'.pubs1) (pub2 : Rel Ptag c0.pub2out s'.pubs2) (sub : Rel Psub c0.suback s'.subs)
-    (unsub : Rel Punsub c0.unsuback s'.unsubs) (in2 : Rel Pin c0.pub2in s'.open2) (ping : slotTags c0 = s'.pings)
+    (unsub : Rel Punsub c0.unsuback s'.unsubs) (in2 : Rel Pin c0.pub2in s'.open2) (ping : pingTags c0 = s'.pings ∧ PingsWaiting c0)
     (trie : ∃ store, TI c'.topics store ∧ HeldRel store s'.held) (good : GoodS s') : R c' s' := by
   refine ⟨?_, ?_, ?_, ?_, ?_, ?_, ?_, trie, good⟩
   · rw [hf.connected]; exact conn
@@ -1007,7 +1006,7 @@ theorem R_of_frame (c0 c' : C) (s' : S) (hf : Frame c0 c') (conn : c0.connected 
   · have := hf.queue .sub; simp only [queue] at this; rw [this]; exact sub
   · have := hf.queue .unsub; simp only [queue] at this; rw [this]; exact unsub
   · rw [hf.pub2in]; exact in2
-  · unfold slotTags at *; rw [hf.ping]; exact ping
+  · unfold pingTags PingsWaiting at *; rw [hf.pings]; exact ping
 
 theorem sim_peer_suback (c : C) (s : S) (hR : R c s) (id : Nat) (codes : List Nat)
     (hok : okStep s (.peer (.suback id codes)) = true) :
@@ -1058,19 +1057,25 @@ theorem sim_peer_unsuback (c : C) (s : S) (hR : R c s) (id : Nat) :
 theorem sim_peer_pingresp (c : C) (s : S) (hR : R c s) :
     R (peer c .pingresp).1 (Mqtt.Spec.Client.peer s .pingresp).1 ∧
     EvMatch (Mqtt.Spec.Client.peer s .pingresp).2 (peer c .pingresp).2 := by
-  have hp := hR.ping
-  simp only [peer, Mqtt.Spec.Client.peer]
-  cases hcp : c.ping with
-  | none =>
-    simp only [slotTags, hcp] at hp
-    rw [← hp]
-    exact ⟨hR, EvMatch.nil⟩
-  | some x =>
+  obtain ⟨hp, hw⟩ := hR.ping
+  have hw' := peer_pingsWaiting c .pingresp hw
+  rw [peer_pingresp, pingAcked_pingAck_waiting c.pings hw] at hw' ⊢
+  simp only [Mqtt.Spec.Client.peer]
+  unfold pingTags at hp
+  cases hcp : c.pings with
+  | nil =>
+    rw [hcp] at hp hw'
+    have hs : s.pings = [] := hp.symm
+    rw [hs]
+    exact ⟨⟨hR.conn, hR.pub1, hR.pub2, hR.sub, hR.unsub, hR.in2, ⟨by simp [pingTags, hs], hw'⟩, hR.trie,
+      ⟨hR.good.subs, hR.good.unsubs, hR.good.open2⟩⟩, EvMatch.nil⟩
+  | cons x rest =>
     obtain ⟨st, tag⟩ := x
-    simp only [slotTags, hcp] at hp
+    rw [hcp] at hp hw'
     rw [← hp]
-    simp only
-    refine ⟨⟨hR.conn, hR.pub1, hR.pub2, hR.sub, hR.unsub, hR.in2, rfl, hR.trie,
+    simp only [List.map_cons, List.tail_cons, List.head?_cons, Option.map_some, Option.toList_some,
+      List.flatMap_cons, List.flatMap_nil, List.append_nil]
+    refine ⟨⟨hR.conn, hR.pub1, hR.pub2, hR.sub, hR.unsub, hR.in2, ⟨rfl, hw'⟩, hR.trie,
       ⟨hR.good.subs, hR.good.unsubs, hR.good.open2⟩⟩, ?_⟩
     exact EvMatch.completeOut tag false
 
